@@ -174,7 +174,7 @@ pub fn run_c09(tier: Tier, seed: u64) -> i32 {
     let sp = scratch.path().to_path_buf();
     par_run(&mut rep, seeds, default_threads().min(8), |sd| {
         let mut rng = Rng::new(sd ^ 0xC09);
-        let sc = *rng.pick(&[SizeClass::Tiny, SizeClass::Small, SizeClass::Small, SizeClass::Medium]);
+        let sc = if tier == Tier::Quick { *rng.pick(&[SizeClass::Tiny, SizeClass::Small, SizeClass::Small]) } else { *rng.pick(&[SizeClass::Tiny, SizeClass::Small, SizeClass::Small, SizeClass::Medium]) };
         let mut db = gen_db(&mut rng, 2, sc);
         for t in db.iter_mut() {
             if t.rows.is_empty() {
